@@ -3,14 +3,17 @@
    for every pair of series and every bound B it returns the unpruned
    specification value when that value is <= B, and inf otherwise.
 
-   Guard: no begin relaxation (psi_1b = psi_2b = 0) -- with begin relaxation the
-   bookkeeping is unsound in the code itself (finding F06) -- and penalty >= 0.
+   Guard: penalty >= 0, window >= 1, non-empty series, the empty alignment excluded.
+   Begin relaxation is covered: the code (after the repair of finding F06) starts
+   with ec = psi_2b and forgets sc while i <= psi_1b; without those two lines the
+   statement is false (C03_begin_psi_refuted_old_bookkeeping).
 
    Proof idea.  Q x y := x = y \/ (x > B /\ y > B) relates a buffer cell x with the
    true matrix cell y.  Q is preserved by the cell update (costs are non-negative).
    A skipped cell holds inf, so it needs "the true cell is inf or > B" (big):
      - columns < sc : all cells of the previous row left of sc are big, hence
-       (induction along the row, column 0 being inf) so are those of this row;
+       (induction along the row, the border column being inf once i > psi_1b) so are
+       those of this row;
      - columns after a break at j >= ec : the previous row is big from ec on and
        the cell at j is big, hence (induction along the row) so is the rest. *)
 From Coq Require Import ZArith Bool List Lia.
@@ -139,8 +142,7 @@ Hypothesis Hw : 1 <= eff_window u r c.
 Hypothesis Hr : (1 <= r)%nat.
 Hypothesis Hc : (1 <= c)%nat.
 Hypothesis Hpen : pen_ok u.
-Hypothesis H1b : psi_1b u = 0%nat.
-Hypothesis H2b : psi_2b u = 0%nat.
+Hypothesis Hpsi : (psi_1b u < r)%nat \/ (psi_2e u < c)%nat.
 
 Local Notation LL := (L u s1 s2).
 Local Notation sk := (skip_of u s1 s2).
@@ -156,11 +158,20 @@ Local Notation wh := (whi u s1 s2).
 Lemma pen_nonneg : 0 <= adj_penalty u.
 Proof. apply adj_penalty_nonneg. exact Hpen. Qed.
 
-Lemma M_S_0 a : M (S a) 0 = Inf.
-Proof. unfold Mfun. rewrite Mf_S_0. unfold b1. rewrite H1b. reflexivity. Qed.
+Lemma M_S_0 a : (psi_1b u <= a)%nat -> M (S a) 0 = Inf.
+Proof.
+  intros H. unfold Mfun. rewrite Mf_S_0. unfold b1. destruct (Nat.leb_spec (S a) (psi_1b u)); [lia|reflexivity].
+Qed.
 
-Lemma M_0_S col : M 0 (S col) = Inf.
-Proof. unfold Mfun. rewrite Mf_0. unfold b0. rewrite H2b. reflexivity. Qed.
+Lemma M_S_0_zero a : (a < psi_1b u)%nat -> M (S a) 0 = Fin 0.
+Proof.
+  intros H. unfold Mfun. rewrite Mf_S_0. unfold b1. destruct (Nat.leb_spec (S a) (psi_1b u)); [reflexivity|lia].
+Qed.
+
+Lemma M_0_S col : (psi_2b u <= col)%nat -> M 0 (S col) = Inf.
+Proof.
+  intros H. unfold Mfun. rewrite Mf_0. unfold b0. destruct (Nat.leb_spec (S col) (psi_2b u)); [lia|reflexivity].
+Qed.
 
 Lemma M_step a j : M (S a) (S j) = code_cell (adj_penalty u) (cell u s1 s2 a j) (M a j) (M a (S j)) (M (S a) j).
 Proof. apply M_S_S. Qed.
@@ -174,12 +185,12 @@ Qed.
 Definition SInv (a s : nat) : Prop := forall col, (1 <= col <= s)%nat -> bigb (M a col).
 Definition EInv (a e : nat) : Prop := forall col, (e + 1 <= col)%nat -> bigb (M a col).
 
-Lemma S_next a s : SInv (S a) s -> SInv (S (S a)) s.
+Lemma S_next a s : (psi_1b u <= a)%nat -> SInv (S a) s -> SInv (S (S a)) s.
 Proof.
-  intros H. assert (G : forall col, (col <= s)%nat -> bigb (M (S (S a)) col)).
-  { induction col as [|col IH]; intros Hc0; [rewrite M_S_0; apply big_inf|].
+  intros Hp H. assert (G : forall col, (col <= s)%nat -> bigb (M (S (S a)) col)).
+  { induction col as [|col IH]; intros Hc0; [rewrite M_S_0 by lia; apply big_inf|].
     apply big_step; [|apply H; lia|apply IH; lia].
-    destruct col as [|col]; [rewrite M_S_0; apply big_inf|apply H; lia]. }
+    destruct col as [|col]; [rewrite M_S_0 by lia; apply big_inf|apply H; lia]. }
   intros col Hcol. apply G. lia.
 Qed.
 
@@ -210,8 +221,9 @@ Variable i : nat.
 Hypothesis Hi : (i < r)%nat.
 Variable prev : list cost.
 Hypothesis Hprev : PRowOK i prev.
-Variables sc ec : nat.
+Variables sc ec : nat.                    (* sc: AFTER the "if i <= psi_1b: sc = 0" of the code *)
 Hypothesis HS : SInv (S i) sc.
+Hypothesis Hreset : (i <= psi_1b u)%nat -> sc = 0%nat.
 Hypothesis HE : EInv i ec.
 
 Let j0 := Nat.max (jS i) sc.
@@ -233,19 +245,58 @@ Definition PCurOK (j : nat) (cur : list cost) : Prop :=
     else rget cur q = Inf.
 
 (* everything up to the first processed column is big *)
-Lemma all_big0 col : (col <= j0)%nat -> bigb (M (S i) col).
+Lemma all_big0 col : (1 <= col <= j0)%nat -> bigb (M (S i) col).
 Proof.
-  intros Hcol. destruct col as [|col]; [rewrite M_S_0; apply big_inf|].
+  intros Hcol. destruct col as [|col]; [lia|].
   destruct (Nat.le_gt_cases (S col) sc) as [Hle|Hgt]; [apply HS; lia|].
   left. apply (M_out u s1 s2 Hw Hr Hc i col Hi). unfold j0 in Hcol. lia.
 Qed.
 
-Lemma pcur_inf j : (j <= j0)%nat -> PCurOK j (repeat Inf LL).
+(* the row as the code prepares it: inf everywhere, 0 in the border cell while the begin of series 1 is relaxed *)
+Definition cur1 : list cost :=
+  if negb (psi_1b u =? 0)%nat && (j0 =? 0)%nat && (i <? psi_1b u)%nat then upd_nat (repeat Inf LL) 0 (Fin 0)
+  else repeat Inf LL.
+
+Lemma cur1_length : length cur1 = LL.
+Proof. unfold cur1. destruct (_ && _ && _); [rewrite upd_nat_length|]; apply repeat_length. Qed.
+
+Lemma pcur_inf j : (j <= j0)%nat -> PCurOK j cur1.
 Proof.
-  intros Hj q Hq. unfold rget. rewrite nth_repeat_inf.
-  destruct ((jS i <=? q + sk i)%nat && (q + sk i <=? j)%nat) eqn:E; [|reflexivity].
-  apply andb_true_iff in E. destruct E as [_ E]. apply Nat.leb_le in E.
-  apply Q_inf. apply all_big0. lia.
+  intros Hj q Hq.
+  destruct (geom_row u s1 s2 Hw Hr Hc i Hi) as (G1 & G2 & G3 & G4 & G5).
+  assert (Hval : rget cur1 q = (if (q =? 0)%nat && negb (psi_1b u =? 0)%nat && (j0 =? 0)%nat && (i <? psi_1b u)%nat
+                               then Fin 0 else Inf)).
+  { unfold cur1, rget.
+    destruct (negb (psi_1b u =? 0)%nat) eqn:C1a; destruct (j0 =? 0)%nat eqn:C1b; destruct (i <? psi_1b u)%nat eqn:C1c;
+      rewrite ?andb_true_r, ?andb_false_r; cbn [andb];
+      try (rewrite nth_repeat_inf; reflexivity).
+    destruct q as [|q]; cbn [Nat.eqb].
+    - apply nth_upd_nat_eq. rewrite repeat_length. lia.
+    - rewrite nth_upd_nat_neq by lia. apply nth_repeat_inf. }
+  rewrite Hval. clear Hval.
+  destruct ((q =? 0)%nat && negb (psi_1b u =? 0)%nat && (j0 =? 0)%nat && (i <? psi_1b u)%nat) eqn:C2.
+  - (* the zero border cell: column 0, in range, and the matrix has 0 there *)
+    apply andb_true_iff in C2. destruct C2 as [C2 C4]. apply andb_true_iff in C2. destruct C2 as [C2 C3].
+    apply andb_true_iff in C2. destruct C2 as [C2 _].
+    apply Nat.eqb_eq in C2. apply Nat.eqb_eq in C3. apply Nat.ltb_lt in C4. subst q.
+    assert (jS i = 0)%nat by (unfold j0 in C3; lia). assert (sk i = 0)%nat by lia.
+    replace (0 + sk i)%nat with 0%nat by lia.
+    assert (E : ((jS i <=? 0)%nat && (0 <=? j)%nat) = true) by (apply andb_true_iff; split; apply Nat.leb_le; lia).
+    rewrite E. rewrite M_S_0_zero by exact C4. apply Q_refl.
+  - destruct ((jS i <=? q + sk i)%nat && (q + sk i <=? j)%nat) eqn:E; [|reflexivity].
+    apply andb_true_iff in E. destruct E as [E1 E2]. apply Nat.leb_le in E1. apply Nat.leb_le in E2.
+    apply Q_inf. destruct (Nat.eq_dec (q + sk i) 0) as [Z|NZ]; [|apply all_big0; lia].
+    (* column 0 in range but not set to 0: then the matrix has inf there *)
+    rewrite Z. left. apply M_S_0.
+    destruct (Nat.le_gt_cases (psi_1b u) i) as [Hle|Hgt]; [exact Hle|exfalso].
+    assert (sc = 0)%nat by (apply Hreset; lia).
+    assert (C : ((q =? 0)%nat && negb (psi_1b u =? 0)%nat && (j0 =? 0)%nat && (i <? psi_1b u)%nat) = true).
+    { repeat (apply andb_true_iff; split).
+      - apply Nat.eqb_eq; lia.
+      - apply negb_true_iff. apply Nat.eqb_neq. lia.
+      - apply Nat.eqb_eq. unfold j0. lia.
+      - apply Nat.ltb_lt. exact Hgt. }
+    congruence.
 Qed.
 
 Lemma pcur_upd j cur v : (jS i <= j < jE i)%nat -> length cur = LL -> PCurOK j cur ->
@@ -292,7 +343,7 @@ Record LInv (j : nat) (st : pst) : Prop := {
   li_sc : SInv (S i) (p_sc st);
   li_run : p_stop st = false ->
     PCurOK j (p_cur st) /\
-    (p_smaller st = false -> forall col, (col <= j)%nat -> bigb (M (S i) col)) /\
+    (p_smaller st = false -> forall col, (1 <= col <= j)%nat -> bigb (M (S i) col)) /\
     (forall col, (p_ecn st + 1 <= col <= j)%nat -> bigb (M (S i) col));
   li_stop : p_stop st = true -> PCurOK (jE i) (p_cur st) /\ EInv (S i) (p_ecn st) }.
 
@@ -362,23 +413,24 @@ Proof.
   replace (j + S n)%nat with (S j + n)%nat by lia. apply IH; [lia|lia|]. apply pstep_ok; [lia|exact H].
 Qed.
 
-Lemma prow_step_ok :
-  let '(cur, sc', ec') := prow_step u s1 s2 B i (wsk i) prev sc ec in
+Lemma prow_step_ok sc0 : sc = (if (i <=? psi_1b u)%nat then 0%nat else sc0) ->
+  let '(cur, sc', ec') := prow_step u s1 s2 B i (wsk i) prev sc0 ec in
   PRowOK (S i) cur /\ SInv (S i) sc' /\ EInv (S i) ec'.
 Proof.
+  intros Esc.
   destruct (geom_row u s1 s2 Hw Hr Hc i Hi) as (G1 & G2 & G3 & G4 & G5).
-  unfold prow_step. rewrite H1b. cbn [Nat.eqb negb andb]. fold j0.
-  set (st0 := {| p_cur := repeat Inf LL; p_sc := sc; p_smaller := false; p_ecn := i; p_stop := false |}).
+  unfold prow_step. rewrite <- Esc. fold j0. fold cur1.
+  set (st0 := {| p_cur := cur1; p_sc := sc; p_smaller := false; p_ecn := i; p_stop := false |}).
   assert (H0 : LInv j0 st0).
-  { constructor; cbn [p_cur p_sc p_smaller p_ecn p_stop]; [apply repeat_length|exact HS| |intros F; discriminate].
+  { constructor; cbn [p_cur p_sc p_smaller p_ecn p_stop]; [apply cur1_length|exact HS| |intros F; discriminate].
     intros _. split; [apply pcur_inf; lia|]. split; intros; apply all_big0; lia. }
   destruct (Nat.le_gt_cases (jE i) j0) as [Hge|Hlt].
   - (* nothing to compute in this row *)
     replace (jE i - j0)%nat with 0%nat by lia. cbn [seq fold_left]. cbn [p_cur p_sc p_ecn st0].
     split; [|split; [exact HS|]].
-    + split; [apply repeat_length|]. intros q Hq. cbn [wlo whi wskip].
+    + split; [apply cur1_length|]. intros q Hq. cbn [wlo whi wskip].
       apply (pcur_inf (jE i)); [exact Hge|exact Hq].
-    + intros col Hcol. destruct (Nat.le_gt_cases col j0); [apply all_big0; assumption|apply out_big; lia].
+    + intros col Hcol. destruct (Nat.le_gt_cases col j0); [apply all_big0; lia|apply out_big; lia].
   - pose proof (pfold_ok (jE i - j0) j0 st0 (le_n _) ltac:(lia) H0) as HL.
     replace (j0 + (jE i - j0))%nat with (jE i) in HL by lia.
     set (st := fold_left (pstep u s1 s2 B i (wsk i) (sk i) prev ec) (seq j0 (jE i - j0)) st0) in *.
@@ -396,19 +448,24 @@ End OneRow.
 (* ------------------------------------------------------------ all rows *)
 Lemma prows_ok : forall n, (n <= r)%nat ->
   let '(cur, skv, ps, sc, ec) := prows u s1 s2 B n in
-  PRowOK n cur /\ skv = wsk n /\ Qb ps (ps_spec u s1 s2 n) /\ SInv (S n) sc /\ EInv n ec.
+  PRowOK n cur /\ skv = wsk n /\ Qb ps (ps_spec u s1 s2 n) /\ ((psi_1b u < n)%nat -> SInv (S n) sc) /\ EInv n ec.
 Proof.
   induction n as [|i IH]; intros Hn.
   - cbn [prows]. split; [apply prow_init_ok|]. split; [reflexivity|]. split; [apply Q_refl|].
-    split; [intros col Hcol; lia|]. intros col Hcol. destruct col as [|col]; [lia|]. rewrite M_0_S. apply big_inf.
+    split; [intros _ col Hcol; lia|]. intros col Hcol. destruct col as [|col]; [lia|]. rewrite M_0_S by lia. apply big_inf.
   - specialize (IH ltac:(lia)). cbn [prows].
     destruct (prows u s1 s2 B i) as [[[[prev skp] ps] sc] ec].
     destruct IH as (Hp & Hs & Hps & HS & HE). subst skp.
     assert (Hi : (i < r)%nat) by lia.
-    pose proof (prow_step_ok i Hi prev Hp sc ec HS HE) as Hrow.
+    set (sce := if (i <=? psi_1b u)%nat then 0%nat else sc).
+    assert (HSe : SInv (S i) sce).
+    { unfold sce. destruct (Nat.leb_spec i (psi_1b u)); [intros col Hcol; lia|apply HS; lia]. }
+    assert (Hres : (i <= psi_1b u)%nat -> sce = 0%nat).
+    { intros H. unfold sce. destruct (Nat.leb_spec i (psi_1b u)); [reflexivity|lia]. }
+    pose proof (prow_step_ok i Hi prev Hp sce ec HSe Hres HE sc eq_refl) as Hrow.
     destruct (prow_step u s1 s2 B i (wsk i) prev sc ec) as [[cur sc'] ec'].
     destruct Hrow as (Hrow & HS' & HE').
-    split; [exact Hrow|]. split; [reflexivity|]. split; [|split; [apply S_next; exact HS'|exact HE']].
+    split; [exact Hrow|]. split; [reflexivity|]. split; [|split; [intros Hlt; apply S_next; [lia|exact HS']|exact HE']].
     cbn [ps_spec].
     destruct (negb (psi_1e u =? 0)%nat && (jE i =? c)%nat && (r - 1 - i <=? psi_1e u)%nat) eqn:Bc; [|exact Hps].
     apply Q_cmin; [exact Hps|].
@@ -458,7 +515,7 @@ Proof.
   pose proof (rows_ok u s1 s2 Hw Hr Hc r (le_n _)) as HR. destruct (rows u s1 s2 r) as [[curM skM] psM].
   destruct HR as (HrowM & HsM & HpsM). subst psM.
   cbv zeta. apply Q_bounded.
-  rewrite <- (final_value_spec u s1 s2 Hw Hr Hc ltac:(left; rewrite H1b; lia) curM HrowM).
+  rewrite <- (final_value_spec u s1 s2 Hw Hr Hc Hpsi curM HrowM).
   apply final_value_Q; assumption.
 Qed.
 
